@@ -176,6 +176,10 @@ func (s *serveOpts) keygen(c echo.Context) error {
 
 func (s *serveOpts) bulk(c echo.Context) error {
 	ctx := c.Request().Context()
+	// Responses are written while later requests are still being read: without
+	// this an HTTP/1 server closes the request body on the first write and the
+	// rest of the stream is lost. Not supported (and not needed) by HTTP/2.
+	_ = http.NewResponseController(c.Response().Writer).EnableFullDuplex()
 	c.Response().Header().Set(echo.HeaderContentType, echo.MIMEApplicationJSON)
 	c.Response().WriteHeader(http.StatusOK)
 
